@@ -254,6 +254,86 @@ def check_server_path(ctx, inputs):
     finally:
         shutil.rmtree(root, ignore_errors=True)
 
+def check_typing(ctx, sources, n):
+    """'leave it serving the previous version's symbols': what an editor sends while the user types -- ranged one-line edits
+    (a `!` typed in front of a line, or removed again) -- after each the outline must be
+    the outline of the text the client now has (a fresh server opening that text)."""
+    root = tempfile.mkdtemp(prefix="verif_c03_t_")
+    fresh_root = tempfile.mkdtemp(prefix="verif_c03_f_")
+
+    def outline(srv, conn, path):
+        r, _ = impl.request(srv, conn, "textDocument/documentSymbol", {"textDocument": {"uri": impl.uri(path)}})
+        if not r or r[0] != "r":
+            return None
+        return sorted((x["name"].lower(), x["kind"], x["location"]["range"]["start"]["line"], x["location"]["range"]["end"]["line"]) for x in (r[2] or []))
+    try:
+        srv, conn = impl.make_server(root, extra=["--nthreads", "1", "--incremental_sync"])
+        fsrv, fconn = impl.make_server(fresh_root, extra=["--nthreads", "1", "--incremental_sync"])
+        # plain free-form sources without continuation lines (whether a toggled line is part of a continued statement is decided
+        # by heuristics of their own: outside this comparison)
+        free = [(nm, t) for nm, t in sources if nm.endswith(".f90") and 5 < t.count("\n") < 120 and "&" not in t and "#" not in t]
+        for k in range(n):
+            name, text = free[k % len(free)] if k < len(free) else ctx.rng.choice(free)
+            ext = os.path.splitext(name)[1]
+            path = os.path.join(root, "t%d%s" % (k, ext))
+            with open(path, "w", encoding="utf-8", newline="") as f:
+                f.write(text)
+            impl.did_open(srv, path)
+            lines = text.replace("\r\n", "\n").replace("\r", "\n").split("\n")
+            history = []
+            for step in range(4):
+                cand = [i for i, l in enumerate(lines) if l.strip()]
+                if not cand:
+                    break
+                i = ctx.rng.choice(cand)
+                # (other one-line edits -- a character deleted, a word typed -- are decided by heuristics on the new text of the line
+                # and its continuation context; they are exercised for crashes by check_server_path, not compared here)
+                kind = ctx.rng.choice(["comment", "comment", "uncomment"])
+                if kind == "uncomment" and not lines[i].startswith("!"):
+                    kind = "comment"
+                if kind == "comment":
+                    ch = {"range": {"start": {"line": i, "character": 0}, "end": {"line": i, "character": 0}}, "text": "!"}
+                    lines[i] = "!" + lines[i]
+                elif kind == "uncomment":
+                    ch = {"range": {"start": {"line": i, "character": 0}, "end": {"line": i, "character": 1}}, "text": ""}
+                    lines[i] = lines[i][1:]
+                elif kind == "delete":
+                    c = ctx.rng.randrange(0, len(lines[i]))
+                    ch = {"range": {"start": {"line": i, "character": c}, "end": {"line": i, "character": c + 1}}, "text": ""}
+                    lines[i] = lines[i][:c] + lines[i][c + 1:]
+                else:
+                    c = ctx.rng.randrange(0, len(lines[i]) + 1)
+                    w = ctx.rng.choice([" ", "x", "end ", "&", "'", "(", "module "])
+                    ch = {"range": {"start": {"line": i, "character": c}, "end": {"line": i, "character": c}}, "text": w}
+                    lines[i] = lines[i][:c] + w + lines[i][c:]
+                history.append(ch)
+                impl.did_change(srv, path, [ch])
+                got = outline(srv, conn, path)
+                now = "\n".join(lines)
+                fpath = os.path.join(fresh_root, "f%d_%d%s" % (k, step, ext))
+                with open(fpath, "w", encoding="utf-8", newline="") as f:
+                    f.write(now)
+                impl.did_open(fsrv, fpath)
+                want = outline(fsrv, fconn, fpath)
+                impl.did_close(fsrv, fpath)
+                os.remove(fpath)
+                ctx.count(("typing", name, step, repr(ch)), True)
+                have = srv.workspace.get(path)
+                if have is not None and list(have.contents_split) != now.split("\n") and list(have.contents_split) != now.split("\n") + [""]:
+                    break        # the text itself differs: C02's business (tabs read from disk), not compared here
+                if got != want:
+                    ctx.report("C03:stale-after-edit", "after a one-line edit the outline is not the outline of the text the client has (%s)"
+                               % [x for x in (got or []) if x not in (want or [])][:2],
+                               {"kind": "counterexample", "input": {"derived_from": name, "text": text, "ext": ext, "edits": history},
+                                "implementation": got, "oracle": want})
+                    break
+            conn.take()
+            impl.did_close(srv, path)
+            os.remove(path)
+    finally:
+        shutil.rmtree(root, ignore_errors=True)
+        shutil.rmtree(fresh_root, ignore_errors=True)
+
 
 CORPUS = [
     ("corpus", "fixed", ".f90", "procedure(foo) :: bar\n"),
@@ -357,6 +437,7 @@ def run(ctx):
     inputs = list(CORPUS) + statement_prefixes(ctx.rng, sources, 25 if q else 400) + gen_inputs(ctx.rng, sources, 3000 if q else 60000)
     check_inputs(ctx, inputs, 250 if q else 4000)
     check_linear(ctx, 1200 if q else 6000)
+    check_typing(ctx, sources, 40 if q else 600)
     check_server_path(ctx, list(CORPUS) + statement_prefixes(ctx.rng, sources, 2 if q else 60)[::7] + gen_inputs(ctx.rng, sources, 150 if q else 3000))
 
 
